@@ -279,7 +279,7 @@ fn build_cases(seed: u64, thorough: bool) -> (Vec<Case>, Vec<String>, Vec<PrepFa
         }
     }
     let fixtures = corpus::fixture_files();
-    let scale = if thorough { 60 } else { 4 };
+    let scale = if thorough { 60 } else { 6 };
     let mut normalised: Vec<(String, Vec<u8>)> = vec![];
     for (name, bytes) in &fixtures {
         let short = name.rsplit('/').next().unwrap_or(name).to_string();
